@@ -334,7 +334,13 @@ func addSockaddrRecord(sockaddr *auparse.AuditMessage, event *Event) {
 	}
 
 	for k, v := range data {
-		event.Data["socket_"+k] = v
+		key := "socket_" + k
+		if _, found := event.Data[key]; found {
+			event.Warnings = append(event.Warnings, fmt.Errorf(
+				"duplicate key (%v) from %v message", key, sockaddr.RecordType))
+			continue
+		}
+		event.Data[key] = v
 	}
 
 	switch syscall {
@@ -408,7 +414,12 @@ func addExecveRecord(execve *auparse.AuditMessage, event *Event) {
 			errors.New("argc key not found in EXECVE message"))
 		return
 	}
-	event.Data["argc"] = argc
+	if _, found = event.Data["argc"]; found {
+		event.Warnings = append(event.Warnings, fmt.Errorf(
+			"duplicate key (argc) from %v message", execve.RecordType))
+	} else {
+		event.Data["argc"] = argc
+	}
 
 	count, err := strconv.ParseUint(argc, 10, 32)
 	if err != nil {
